@@ -8,6 +8,7 @@ to json.loads (full parsing = the oracle).  The ijson event model is compared wi
 import asyncio
 import io
 import json
+import math
 import re
 from decimal import Decimal
 from fractions import Fraction
@@ -22,7 +23,7 @@ RULE = ("type-directed generator over the Elasticsearch response shapes (bulk, s
 TRUSTED = [
     "CPython json.loads is the reference full parser (the Lean renderer is validated against it on every document)",
     "ijson 2.6.1 pure-python backend: its event stream is modelled on JSON values and compared with the real library on every generated document",
-    "python `re`/`str.rfind` semantics of the one regex used by SearchAfterExtractor are modelled by hand",
+    "python `re` (`sort\":\\s*` anchored match, Unicode \\s), `str.rfind` and `JSONDecoder.raw_decode` as used by SearchAfterExtractor are modelled by hand",
 ]
 ASSUMPTIONS = [
     "responses are well-formed JSON texts in UTF-8 without duplicate keys on the selected paths; status / took / hits.total / _shards.* are integer literals",
@@ -104,7 +105,7 @@ def canon(v):
     if isinstance(v, Decimal):
         return ["d", str(Fraction(v))]
     if isinstance(v, float):
-        return ["f", str(Fraction(v))]
+        return ["f", str(Fraction(v)) if math.isfinite(v) else repr(v)]
     if isinstance(v, str):
         return ["s", v]
     if isinstance(v, dict):
